@@ -3,6 +3,7 @@ package props
 import (
 	"fmt"
 	"sort"
+	"strconv"
 	"strings"
 
 	"verif/cells"
@@ -84,6 +85,11 @@ func respPayload(s *spec.Spec, mode, id string) *drv.RespPayload {
 					}
 					if sc != nil {
 						d.Type, d.Format = sc.Type, sc.Format
+						if ext, ok := sc.Ext["x-goag-go-time-format"].(string); ok {
+							if l, err := strconv.Unquote(ext); err == nil {
+								d.Layout = l
+							}
+						}
 						if d.Type == "string" && d.Format != "date-time" {
 							d.Format = ""
 						}
@@ -248,7 +254,8 @@ func respCells(tier string) []cells.Cell {
 		}
 		s.Comp.Schemas = []spec.NamedSchema{{Name: "Stamp", Schema: spec.Obj(spec.P("at", lay()), spec.P("opt", lay()), spec.P("plain", spec.TF("string", "date-time"))).Req("at")}}
 		s.Paths = []*spec.PathItem{{Template: "/p", Ops: []*spec.Op{{Method: "GET", Responses: []*spec.Response{
-			{Status: "200", Desc: "r", Schema: spec.Obj(spec.P("at", lay()), spec.P("n", spec.TF("integer", "int32"))).Req("at")},
+			{Status: "200", Desc: "r", Schema: spec.Obj(spec.P("at", lay()), spec.P("n", spec.TF("integer", "int32"))).Req("at"),
+				Headers: []*spec.Header{{Name: "X-At", Required: true, Schema: lay()}, {Name: "X-Opt-At", Schema: lay()}, {Name: "X-Plain-At", Schema: spec.TF("string", "date-time")}}},
 			{Status: "404", Desc: "r", Schema: spec.RefTo("Stamp")},
 			{Status: "default", Desc: "d", Schema: spec.Arr(spec.RefTo("Stamp"))}}}}}}
 		out = append(out, cells.NewCell("resplayout", map[string]string{"shape": "body-time-layout", "only": "C10"}, s))
